@@ -289,7 +289,7 @@ fn process_val(
     // Now, actually process the value.
 
     // First, update the summary.
-    let len = current_val.end;
+    let len = current_val.end - current_val.start;
     let val = f64::from(current_val.value);
     summary.total_items = summary.total_items + (1);
     summary.bases_covered = summary.bases_covered + (u64::from(len));
